@@ -616,6 +616,12 @@ def run(index: RepoIndex, rep) -> None:
     late_binding_closures(index, rep, 'C12.R4', (
         'gym_gridverse/envs/reward_functions.py',
         'gym_gridverse/envs/terminating_functions.py'))
+    rep.rule('C12.R8', 'what a driven environment reports is what the components computed for '
+             'that step: InnerEnv.step returns the reward and flag of its one functional_step '
+             'call, OuterEnv.step returns the inner answer (C04.R1, C04.R5)', floor=8)
+    from .c04 import outer_delegation, state_machine
+    state_machine(index, rep, 'C12.R8')
+    outer_delegation(index, rep, 'C12.R8')
     rep.rule('C12.R5', 'GridWorld.functional_step wires reward and termination on the '
              '(state, action, next_state) of one step', floor=3)
     rw = index.registry('reward', 13)
